@@ -11,7 +11,6 @@ use crate::{
         ViewLayoutStore, ViewMutLayout,
     },
 };
-use rasterize::RGBA;
 use std::{
     cmp::{max, min},
     collections::HashMap,
@@ -338,7 +337,8 @@ impl TerminalRenderer {
         // Second pass
         //
         // Render or characters
-        let mut face = Face::default().with_bg(Some(RGBA::new(1, 2, 3, 255)));
+        // face that terminal is currently using is not known at the beginning of the frame
+        let mut face: Option<Face> = None;
         let mut cursor = Position::new(123_456, 654_123);
 
         let mut pos = Position::origin();
@@ -366,9 +366,9 @@ impl TerminalRenderer {
                 }
 
                 // update face and cursor
-                if face != new.face {
-                    face = new.face;
-                    term.execute(TerminalCommand::Face(face))?;
+                if face != Some(new.face) {
+                    face = Some(new.face);
+                    term.execute(TerminalCommand::Face(new.face))?;
                 }
                 if cursor != pos {
                     cursor = pos;
